@@ -21,7 +21,7 @@
 // Allow PyO3 macro-generated interior mutable constants
 #![allow(clippy::declare_interior_mutable_const)]
 
-use pyo3::exceptions::{PyTypeError, PyValueError};
+use pyo3::exceptions::{PyMemoryError, PyTypeError, PyValueError};
 use pyo3::prelude::*;
 use pyo3::types::{PyBytes, PyList};
 
@@ -228,6 +228,9 @@ fn apply_delta(py: Python, py_src_buf: Py<PyAny>, py_delta: Py<PyAny>) -> PyResu
                 return Err(ApplyDeltaError::new_err("Not enough space to copy"));
             }
 
+            // An allocation failure aborts the process unless asked for first.
+            out.try_reserve(cp_size)
+                .map_err(|_| PyMemoryError::new_err("out of memory applying delta"))?;
             out.extend_from_slice(&src_buf[cp_off..cp_off + cp_size]);
             outindex += cp_size;
         } else if cmd != 0 {
@@ -245,6 +248,8 @@ fn apply_delta(py: Python, py_src_buf: Py<PyAny>, py_delta: Py<PyAny>) -> PyResu
                 return Err(ApplyDeltaError::new_err("Not enough space to copy"));
             }
 
+            out.try_reserve(cmd as usize)
+                .map_err(|_| PyMemoryError::new_err("out of memory applying delta"))?;
             out.extend_from_slice(&delta[index..index + cmd as usize]);
             outindex += cmd as usize;
             index += cmd as usize;
